@@ -170,7 +170,7 @@ fn data_for(rng: &mut Rng, tag: u32, ty: u32, count: usize) -> TData {
             1118 => rng.pick(&["/", "/usr/", "/usr/bin", "", "rel/", "/é/"]).as_bytes().to_vec(),
             1117 => rng.pick(&["a", "b.txt", "/abs", "", "x/y", "..", "c"]).as_bytes().to_vec(),
             1035 => {
-                let l = *rng.pick(&[0usize, 0, 64, 64, 64, 64, 64, 64, 64, 64, 64, 64, 32, 60, 96, 128, 10]);
+                let l = *rng.pick(&[0usize, 0, 64, 64, 64, 64, 64, 64, 64, 64, 64, 64, 32, 56, 60, 40, 96, 128, 10]);
                 (0..l).map(|_| b"0123456789abcdef"[rng.below(16) as usize]).collect()
             }
             _ => rand_cstr(rng),
@@ -211,7 +211,25 @@ pub fn gen_typed(rng: &mut Rng) -> Vec<u8> {
         let t = consistent[rng.below(consistent.len() as u64) as usize].0;
         match rng.below(3) { 0 => drop_tag = t, 1 => retype_tag = t, _ => relen_tag = t }
     }
+    // in a consistent file group the digests are usually those of ONE algorithm (real lengths: md5 32, sha1 40,
+    // sha224 56, sha256 64, sha384 96, sha512 128) and FILEDIGESTALGO names it
+    let coherent: Option<(u32, usize)> = if files_mode >= 1 && rng.chance(3, 4) {
+        Some(*rng.pick(&[(8u32, 64usize), (8, 64), (8, 64), (1, 32), (11, 56), (9, 96), (10, 128), (2, 40), (11, 60)]))
+    } else { None };
     for &(tag, ty) in TAGS {
+        if let Some((algo, len)) = coherent {
+            if tag == 1035 || tag == 5011 {
+                let has = consistent.iter().any(|c| c.0 == tag);
+                if tag == 5011 && !has { consistent.push((5011, 1)); }
+                let d = if tag == 5011 { TData::U32(vec![algo]) } else {
+                    TData::Strs((0..nfiles).map(|_| if rng.chance(1, 6) { Vec::new() } else { (0..len).map(|_| b"0123456789abcdef"[rng.below(16) as usize]).collect() }).collect())
+                };
+                if tag != drop_tag && tag != retype_tag && tag != relen_tag {
+                    hdr.push(tag, ty, &d);
+                    continue;
+                }
+            }
+        }
         let cons = consistent.iter().find(|c| c.0 == tag).cloned();
         if let Some((_, n)) = cons {
             if tag == drop_tag { continue; }
